@@ -127,10 +127,11 @@ class Ctx:
 
 
 class Summary:
-    __slots__ = ("ret", "effects", "raises", "state", "used")
+    __slots__ = ("ret", "effects", "raises", "state", "used", "params_out")
 
     def __init__(self, ret, effects, raises):
         self.ret, self.effects, self.raises, self.state, self.used = ret, effects, raises, None, False
+        self.params_out = {}       # value of each parameter variable at function exit (for in-place updates)
 
 
 class Interp:
@@ -692,6 +693,7 @@ class Interp:
                                lambda p: self.h_missing_arg(func, p, n, ctx))
         bound = {p: self.h_param(func, p, v, ctx) for p, v in bound.items()}
         summ = self.summary(func, selfobj, bound, env, ctx, n)
+        self._last_call = (summ, bound)
         self.h_apply_effects(summ.effects, func, bound, n, env, ctx)
         for r in summ.raises:
             ctx.raises.append(r)
@@ -740,6 +742,16 @@ class Interp:
                     exit_env = self.join_env(exit_env, self._state_only(out))
                 new = Summary(ret, list(sub.effects), list(sub.raises))
                 new.state = exit_env
+                pout = {}
+                for _, _, renv in sub.rets:
+                    for p_ in bound:
+                        if p_ in renv:
+                            pout[p_] = renv[p_] if p_ not in pout else self.join_generic(pout[p_], renv[p_])
+                if out is not None:
+                    for p_ in bound:
+                        if p_ in out:
+                            pout[p_] = out[p_] if p_ not in pout else self.join_generic(pout[p_], out[p_])
+                cur.params_out = pout
                 stable = (cur.ret is None and ret is None) or (cur.ret is not None and ret is not None and self.v_same(cur.ret, ret))
                 cur.ret, cur.effects, cur.raises, cur.state = new.ret, new.effects, new.raises, new.state
                 if stable or not cur.used:
